@@ -795,16 +795,34 @@ def check_vmf(vmf, opts: dict) -> list[tuple[str, str, dict]]:
         return [('parse-error:' + err_class(e), f'parsing the exported text raised {type(e).__name__}: {e}', {'text_len': len(t1)})]
     after = observe(v2, opts)
     seen = set()
-    # Entities that merely changed their order are reported once as such and then compared pairwise by ID.
+    # Entities that merely changed their order are reported once as such and then compared pairwise. Candidate
+    # alignments: by ID (when the IDs survived) and "visible first, then hidden" (the two-pass reader); the one that
+    # leaves the fewest differences wins, the identity included.
+    ignore = not opts.get('preserve_ids')
+
+    def n_diffs(ents: list) -> int:
+        return sum(1 for p, _, _ in diff(before['entities'], ents) if not (ignore and p and p[-1] == 'id'))
     ids_b = [e['id'] for e in before['entities']]
     ids_a = [e['id'] for e in after['entities']]
-    if ids_b != ids_a and sorted(ids_b) == sorted(ids_a) and len(set(ids_b)) == len(ids_b):
+    cands: list[tuple[int, str, list]] = [(n_diffs(after['entities']), '', after['entities'])]
+    if cands[0][0] and len(ids_a) == len(ids_b):
         hid = [e['hidden'] for e in before['entities']]
-        why = 'hidden-before-visible' if any(h and not h2 for i, h in enumerate(hid) for h2 in hid[i + 1:]) else 'other'
-        out.append((f'order:entities:{why}', f'VMF.entities changed order after export->parse: ids {ids_b} became {ids_a}',
-                    {'before': ids_b, 'after': ids_a}))
-        by_id = {e['id']: e for e in after['entities']}
-        after['entities'] = [by_id[i] for i in ids_b]
+        inversion = any(h and not h2 for i, h in enumerate(hid) for h2 in hid[i + 1:])
+        if ids_b != ids_a and sorted(ids_b) == sorted(ids_a) and len(set(ids_b)) == len(ids_b):
+            by_id = {e['id']: e for e in after['entities']}
+            al = [by_id[i] for i in ids_b]
+            cands.append((n_diffs(al), 'hidden-before-visible' if inversion else 'other', al))
+        if inversion:
+            order = [i for i, h in enumerate(hid) if not h] + [i for i, h in enumerate(hid) if h]   # position k of `after` holds before[order[k]]
+            al2: list = [None] * len(hid)
+            for k, i in enumerate(order):
+                al2[i] = after['entities'][k]
+            cands.append((n_diffs(al2), 'hidden-before-visible', al2))
+        best = min(cands, key=lambda c: c[0])
+        if best[1]:
+            out.append((f'order:entities:{best[1]}', f'VMF.entities changed order after export->parse: ids {ids_b} became {ids_a}',
+                        {'before': ids_b, 'after': ids_a}))
+            after['entities'] = best[2]
     if (not opts.get('minimal') and before['cordons']['enabled'] and not before['cordons']['list']
             and not after['cordons']['enabled']):
         out.append(('cordons-enabled-without-cordons', 'cordon_enabled=True on a map without cordons is exported as "active" "0"',
@@ -827,6 +845,11 @@ def check_vmf(vmf, opts: dict) -> list[tuple[str, str, dict]]:
         return out
     if t1 != t2 and not opts.get('preserve_ids'):
         t1, t2 = renumber(t1), renumber(t2)
+    if t1 != t2 and any(k.startswith('order:entities') for k, _, _ in out):
+        cls, det = text_diff_class(t1, t2)
+        out.append(('text:entity-order', f'export->parse->export is not a fixed point (entity order): line {det["line"]}: '
+                    f'{det["first"]!r} became {det["second"]!r}', det))
+        return out
     if t1 != t2 and NEGZERO.sub('0', t1) == NEGZERO.sub('0', t2):
         cls, det = text_diff_class(t1, t2)
         out.append(('text-negative-zero', f'a number exported as "-0" re-reads as -0.0 and is exported as "0" the second time: '
